@@ -31,6 +31,11 @@ class Sized:
 def ev(e, env):
     if isinstance(e, ast.Constant):
         return e.value if isinstance(e.value, (int, bool)) or e.value is None else UNKNOWN
+    if isinstance(e, (ast.Attribute, ast.Subscript)) and ('$' + src(e)) in env:
+        return env['$' + src(e)]            # an answer the rule supplies for a place it names (`$e.args[0]`)
+    if isinstance(e, (ast.Tuple, ast.List, ast.Set)):
+        vals = tuple(ev(x, env) for x in e.elts)
+        return UNKNOWN if any(v is UNKNOWN for v in vals) else vals
     if isinstance(e, ast.Name):
         return env.get(e.id, UNKNOWN)
     if isinstance(e, ast.UnaryOp):
@@ -58,6 +63,12 @@ def ev(e, env):
             right = ev(c, env)
             if left is UNKNOWN or right is UNKNOWN:
                 return UNKNOWN
+            if isinstance(op, (ast.In, ast.NotIn)):
+                if not isinstance(right, tuple):
+                    return UNKNOWN
+                res = res and ((left in right) == isinstance(op, ast.In))
+                left = right
+                continue
             try:
                 r = {ast.Lt: lambda: left < right, ast.LtE: lambda: left <= right, ast.Gt: lambda: left > right, ast.GtE: lambda: left >= right,
                      ast.Eq: lambda: left == right, ast.NotEq: lambda: left != right, ast.Is: lambda: left is right, ast.IsNot: lambda: left is not right}[type(op)]()
@@ -130,3 +141,83 @@ def run(func, env, stop=None, fuel=400, start=None):
                     nxt = e.dst
         node = nxt
     return env, node
+
+
+def _transfer(node, env):
+    """The valuation after *node* (a non-test node)."""
+    a = node.ast
+    if node.kind == 'stmt' and isinstance(a, ast.Assign) and all(isinstance(t, ast.Name) for t in a.targets):
+        v = ev(a.value, env)
+        env = dict(env)
+        for t in a.targets:
+            env[t.id] = v
+    elif node.kind == 'stmt' and isinstance(a, ast.AugAssign) and isinstance(a.target, ast.Name):
+        env = dict(env)
+        env[a.target.id] = ev(ast.BinOp(left=ast.Name(id=a.target.id, ctx=ast.Load()), op=a.op, right=a.value), env)
+    elif node.kind in ('stmt', 'for', 'with') and a is not None:
+        names = [w.id for t in (getattr(a, 'targets', None) or [getattr(a, 'target', None)]) if t is not None for w in ast.walk(t)
+                 if isinstance(w, ast.Name) and isinstance(w.ctx, ast.Store)]
+        if names:
+            env = dict(env)
+            for nme in names:
+                env[nme] = UNKNOWN
+    return env
+
+
+def _freeze(env):
+    return tuple(sorted((k, repr(v)) for k, v in env.items() if not k.startswith('$')))
+
+
+def escapes(cfg, start, env, is_target, *, exits=('exit',), avoid_edge=None, exc='*', weak=False, limit=20000, goal=None):
+    """query.escapes over (node, valuation) states: a path from *start* to an exit that passes no target node and takes no branch the valuation rules out.
+    Tests the valuation cannot decide are followed both ways (a bare flag name is then taken as decided on either branch).  With *goal*, a node satisfying it ends a path like an exit does.
+    None, or the edge list."""
+    from collections import deque
+    from .query import default_edge_ok
+    env = dict(env)
+    s0 = (start, _freeze(env))
+    envs = {s0: env}
+    parent = {}
+    seen = {s0}
+    q = deque([s0])
+    while q and len(seen) < limit:
+        st = q.popleft()
+        node, _k = st
+        env = envs[st]
+        if node.kind in ('exit', 'raise') or (goal is not None and node is not start and goal(node)):
+            if node.kind in exits or (goal is not None and goal(node)):
+                out = []
+                while st in parent:
+                    st, e = parent[st]
+                    out.append(e)
+                out.reverse()
+                return out
+            continue
+        v = ev(node.ast, env) if node.kind == 'test' else None
+        env2 = env if node.kind == 'test' else _transfer(node, env)
+        for e in node.succ:
+            if not default_edge_ok(e, exc, weak):
+                continue
+            if avoid_edge is not None and avoid_edge(e):
+                continue
+            env3 = env2
+            if node.kind == 'test' and e.kind in ('T', 'F'):
+                if v is not UNKNOWN and bool(v) != (e.kind == 'T'):
+                    continue
+                t, pol = node.ast, e.kind == 'T'
+                if isinstance(t, ast.UnaryOp) and isinstance(t.op, ast.Not):
+                    t, pol = t.operand, not pol
+                if v is UNKNOWN and isinstance(t, ast.Name):
+                    env3 = dict(env2)
+                    env3[t.id] = pol
+            d = e.dst
+            if d is not start and is_target(d):
+                continue
+            nst = (d, _freeze(env3))
+            if nst in seen:
+                continue
+            seen.add(nst)
+            envs[nst] = env3
+            parent[nst] = (st, e)
+            q.append(nst)
+    return None
